@@ -206,6 +206,11 @@ func (wr *warnResponseWrapper) Write(b []byte) (int, error) {
 
 // WriteHeader implements http.ResponseWriter.
 func (wr *warnResponseWrapper) WriteHeader(status int) {
+	if isInformational(status) && !wr.headerWritten {
+		// 1xx responses (e.g. 103 Early Hints) precede the final status: pass them on without latching
+		wr.w.WriteHeader(status)
+		return
+	}
 	if !wr.headerWritten {
 		// If the header hasn't been written, record the status for response
 		// validation.
@@ -262,10 +267,19 @@ func (wr *strictResponseWrapper) Write(b []byte) (int, error) {
 
 // WriteHeader implements http.ResponseWriter.
 func (wr *strictResponseWrapper) WriteHeader(status int) {
+	if isInformational(status) {
+		// 1xx responses precede the final status; nothing is sent before validation, so drop them
+		return
+	}
 	if !wr.headerWritten {
 		wr.status = status
 		wr.headerWritten = true
 	}
+}
+
+// isInformational reports whether status is a 1xx status that does not end the header phase.
+func isInformational(status int) bool {
+	return status >= 100 && status <= 199 && status != http.StatusSwitchingProtocols
 }
 
 // Header implements http.ResponseWriter.
